@@ -1,7 +1,7 @@
 (* C18 - vars() reports the variables in scope at the row just yielded.
    Property theorems only; proofs in proofs/FramedMapProof.v, StmtCorollaries.v, IterLogProof.v. *)
-From DTR Require Import Prelude I64 Ast FramedMap Parser Bind Eval Stmt Iter.
-From DTR.proofs Require Import FramedMapProof StmtCorollaries IterLogProof.
+From DTR Require Import Prelude I64 Ast FramedMap Lexer Parser Bind Eval Stmt Iter Script WfSpec.
+From DTR.proofs Require Import FramedMapProof StmtCorollaries IterLogProof RunRefineE IterLogProofE VectorProof OutputsRunProof VarsRunProof.
 Local Open Scope nat_scope.
 
 (* vars() = the environment (stack of frames), innermost binding winning, as a finite map *)
@@ -43,6 +43,52 @@ Theorem C18_io_keeps_variables : forall (G : gen) (DE : Type) (D : driver DE) (w
   end.
 Proof. exact inext_vars. Qed.
 
+(* RUN LEVEL, through error items: after every item of every run the context is well formed and vars() is the innermost-wins view of the frames with distinct keys, agreeing with what an expression would read - the per-context theorems above apply in every reachable state, no hypothesis on the test *)
+Theorem C18_vars_after_each_item_of_every_run :
+  forall (G : gen) (DE : Type) (D : driver DE) (w_default : bool) (tc : testcase) 
+  (fuel n : nat) (st0 : istate),
+  try_new DE D tc = NewOk DE st0 ->
+  Forall (fun s : step DE => vars_view_ok (i_ctx (step_post DE s)))
+  (steps_e G DE D w_default tc fuel n st0).
+Proof. exact vars_after_each_item. Qed.
+
+(* (for any calling pattern) *)
+Theorem C18_vars_in_every_reachable_state :
+  forall (G : gen) (DE : Type) (D : driver DE) (w_default : bool) (tc : testcase) (st : istate),
+  reachable G DE D w_default tc st -> vars_view_ok (i_ctx st).
+Proof. exact vars_in_every_reachable_state_any_fuel. Qed.
+
+(* whatever becomes of a row's call - a row, a failed call, a refused answer, a failing declared signal - the variables afterwards are exactly those right after the row's entries were evaluated *)
+Theorem C18_io_and_errors_leave_the_variables_alone :
+  forall (G : gen) (DE : Type) (D : driver DE) (w_default : bool) (tc : testcase) 
+  (fuel : nat) (st : istate) (er : evaluated_row) (st1 st' : istate),
+  get_row G tc fuel st = GRRow er st1 ->
+  VectorProof.next_state DE (inext G DE D w_default tc fuel st) = Some st' ->
+  cvars (i_ctx st') = cvars (i_ctx st1) /\
+  ctx_vars (i_ctx st') = ctx_vars (i_ctx st1) /\
+  calt (i_ctx st') = calt (i_ctx st) /\ i_log st' = i_log st ++ [(call_kind w_default er, er_inputs er)].
+Proof. exact vars_unchanged_when_called. Qed.
+
+(* the variable map after the k-th item of the run is the one the sequential reading of the program (RunSpecE) has at its k-th item *)
+Theorem C18_vars_agree_with_the_sequential_reading :
+  forall (G : gen) (DE : Type) (D : driver DE) (w_default : bool) (tc : testcase) 
+  (fuel n : nat) (st0 : istate) (items : list (item_view DE)) (st' : istate),
+  try_new DE D tc = NewOk DE st0 ->
+  (n >= 1)%nat ->
+  collect_e G DE D w_default tc fuel n st0 = (items, Some st') ->
+  exists (fuel' : nat) (tags : vtrace),
+  vars_of DE (run_spec_v G DE D w_default tc fuel' n st0) = Some tags /\
+  (forall (k : nat) (s : step DE),
+  nth_error (steps_e G DE D w_default tc fuel n st0) k = Some s ->
+  nth_error items k = Some (step_item DE s) /\
+  nth_error tags k = Some (cvars (i_ctx (step_post DE s))) /\
+  (forall x : name,
+  FramedMapProof.assoc x (ctx_vars (i_ctx (step_post DE s))) =
+  fm_get (cvars (i_ctx (step_post DE s))) x)).
+Proof. exact vars_after_kth_item. Qed.
+
+
+
 Check C18_vars_is_innermost_wins.
 Example C18_example :
   let c := ctx_set (ctx_push_frame (ctx_set (ctx_new []) [97%N] 1%Z)) [97%N] 2%Z in
@@ -50,3 +96,6 @@ Example C18_example :
 Proof. split; reflexivity. Qed.
 Print Assumptions C18_vars_is_innermost_wins.
 Print Assumptions C18_io_keeps_variables.
+Print Assumptions C18_vars_after_each_item_of_every_run.
+Print Assumptions C18_io_and_errors_leave_the_variables_alone.
+Print Assumptions C18_vars_agree_with_the_sequential_reading.
